@@ -331,3 +331,89 @@ CONTRACTS[DP + "parse_predicates"] = dict(
                 d="predicates", src=f"(fn_src({_SUBL}, k, _i) if fn_has({_SUBL}, k, _i) else pr_src(predicates_ast, k, _i0))") + "))"],
             modifies=["dict_Predicate.keys[predicates]", "dict_Predicate.map[predicates]", "Predicate.name", "Predicate.signature", "Predicate.is_positive"])},
     spec_hooks=dict(PR_HOOKS, sexp_atom=lambda interp, st, a: Val(SExp.Atom(a[0].t), "sexp")))
+
+# ---- deductive: parse_signature — ordered, typed parameters --------------------------------------------------------------------------
+# sg_keys(t, i) / sg_pend(t, i): the parameter names that have received their type / are waiting for one after i tokens, IN ORDER
+# (same left-to-right reading as tl_* of contracts/c06.py, which supply membership and the type names).
+from contracts.c06 import tl_mark, tl_pend, tl_has, tl_type, TL_HOOKS as _TL_HOOKS
+_SQS = z3.SeqSort(_S)
+sg_keys = z3.RecFunction("sg_keys", _SQS, I, _SQS)
+sg_pend = z3.RecFunction("sg_pend", _SQS, I, _SQS)
+_st, _si = z3.Const("sg_t", _SQS), z3.Int("sg_i")
+_DASHS = z3.StringVal("-")
+z3.RecAddDefinition(sg_pend, [_st, _si], z3.If(_si <= 0, z3.Empty(_SQS), z3.If(tl_mark(_st, _si - 1), z3.Empty(_SQS),
+                    z3.If(_st[_si - 1] == _DASHS, sg_pend(_st, _si - 1), z3.Concat(sg_pend(_st, _si - 1), z3.Unit(_st[_si - 1]))))))
+z3.RecAddDefinition(sg_keys, [_st, _si], z3.If(_si <= 0, z3.Empty(_SQS), z3.If(tl_mark(_st, _si - 1), z3.Concat(sg_keys(_st, _si - 1), sg_pend(_st, _si - 1)),
+                                                                              sg_keys(_st, _si - 1))))
+SG_HOOKS = dict(_TL_HOOKS,
+                sg_keys=lambda interp, st, a: Val(sg_keys(a[0].t, a[1].t), ("seq", "str")),
+                sg_pend=lambda interp, st, a: Val(sg_pend(a[0].t, a[1].t), ("seq", "str")),
+                cat=lambda interp, st, a: Val(z3.Concat(a[0].t, a[1].t), ("seq", "str")),
+                prefix=lambda interp, st, a: Val(z3.SubSeq(a[0].t, 0, a[1].t), ("seq", "str")),
+                qmark=lambda interp, st, a: Val(z3.PrefixOf(z3.StringVal("?"), a[0].t), "bool"))
+_T = "iter_seq(parameters)"
+_NT = f"len({_T})"
+_ALLN = f"cat(sg_keys({_T}, {{i}}), sg_pend({_T}, {{i}}))"
+_BADNAME = f"exists_int(lambda j: not tl_mark({_T}, j) and {_T}[j] != '-' and not qmark({_T}[j]), 0, {_NT})"
+_EK = "at_loop_entry(signature.keys())"
+
+
+def _same_seq(a, b):
+    """sequence equality, stated position by position (that is how the loops establish it)"""
+    return f"len({a}) == len({b}) and forall_int(lambda a_: {a}[a_] == {b}[a_], 0, len({b}))"
+
+
+def _inner(value):
+    # the inner loops append the waiting names, in order, behind the keys that were there when the loop was entered
+    return dict(invariants=[
+        "fresh(signature)",
+        f"len(signature.keys()) == len({_EK}) + _i",
+        f"forall_int(lambda a_: signature.keys()[a_] == {_EK}[a_], 0, len({_EK}))",
+        f"forall_int(lambda a_: signature.keys()[len({_EK}) + a_] == grouped_params[a_], 0, _i)",
+        # entries present at loop entry are kept, the new ones carry the group's type
+        "forall_str(lambda s: implies(at_loop_entry(s in signature), s in signature and signature[s] is at_loop_entry(signature[s])))",
+        f"forall_int(lambda a_: grouped_params[a_] in signature and signature[grouped_params[a_]] is {value}, 0, _i)",
+        f"forall_str(lambda s: implies(s in signature, at_loop_entry(s in signature) or exists_int(lambda a_: grouped_params[a_] == s, 0, _i)))",
+        # (fact about the loop entry) the old keys followed by the waiting names are pairwise distinct
+        f"forall_int(lambda a_: forall_int(lambda b_: implies(a_ != b_, cat({_EK}, grouped_params)[a_] != cat({_EK}, grouped_params)[b_]), 0, "
+        f"len({_EK}) + len(grouped_params)), 0, len({_EK}) + len(grouped_params))"],
+        modifies=["dict_str_ref.keys[signature]", "dict_str_ref.map[signature]"])
+
+
+# NOT DISCHARGED (kept for the record, not registered): the contract translates (three loops, iterator parameter, `next`), but the
+# obligations that carry the ORDER of the keys — index-wise relations between the dictionary's key sequence, the waiting names and the
+# recursively defined sequences sg_keys / sg_pend — stay `unknown` in the sequence theory of z3 and cvc5 (16 of 65 obligations).
+# parse_signature therefore remains an ASSUMED callee of parse_functions / _parse_predicate and is covered by the bounded stand-in
+# above (ordered typed parameters of every generated signature; seeded change C01-3 is reported by it).
+CONTRACTS_NOT_DISCHARGED = {}
+CONTRACTS_NOT_DISCHARGED["lisp_parsers.parsing_utils:parse_signature@proved"] = dict(
+    prop="C01", shards=6,
+    params={"parameters": ("iter", "str"), "domain_types": ("ref", "dict_PDDLType")},
+    locals={"signature": ("ref", "dict_str_ref"), "grouped_params": ("seq", "str")},
+    returns=("ref", "dict_str_ref"), dict_values={"dict_str_ref": "PDDLType"},
+    globals={"ObjectType": ("ref", "PDDLType", "G_ObjectType")},
+    requires=["iter_pos(parameters) == 0", "allocated(domain_types)",
+              # parameter names are pairwise distinct (stated for every prefix of the list, which is how the proof uses it)
+              "forall_int(lambda i: forall_int(lambda a: forall_int(lambda b: implies(a != b, " + _ALLN.format(i="i") + "[a] != " + _ALLN.format(i="i") + "[b]), 0, "
+              "len(" + _ALLN.format(i="i") + ")), 0, len(" + _ALLN.format(i="i") + ")), 0, " + _NT + " + 1)"],
+    ensures=[
+        "fresh(result)",
+        # the parameters in the order in which they are written
+        _same_seq("result.keys()", _ALLN.format(i=_NT)),
+        # each with the type object registered under its declared type name; parameters listed without a type get the default object type
+        f"forall_str(lambda s: implies(tl_has({_T}, s, {_NT}) and not tl_pend({_T}, s, {_NT}), result[s] is domain_types[tl_type({_T}, s, {_NT})]))",
+        f"forall_str(lambda s: implies(tl_pend({_T}, s, {_NT}), result[s] is ObjectType))"],
+    raises={"SyntaxError": _BADNAME, "StopIteration": f"tl_mark({_T}, {_NT})", "KeyError": "True"},
+    must_raise=[_BADNAME],
+    modifies=[],
+    loops={
+        0: dict(invariants=[
+            "fresh(signature)", f"not tl_mark({_T}, _i)",
+            _same_seq("signature.keys()", f"sg_keys({_T}, _i)"), _same_seq("grouped_params", f"sg_pend({_T}, _i)"),
+            f"forall_str(lambda s: (s in signature) == tl_has({_T}, s, _i))", f"forall_str(lambda s: (s in grouped_params) == tl_pend({_T}, s, _i))",
+            f"forall_str(lambda s: implies(s in signature, signature[s] is domain_types[tl_type({_T}, s, _i)]))",
+            f"forall_int(lambda j: implies(not tl_mark({_T}, j) and {_T}[j] != '-', qmark({_T}[j])), 0, _i)"],
+            modifies=["dict_str_ref.keys[signature]", "dict_str_ref.map[signature]"]),
+        1: _inner("domain_types[parameter_type]"),
+        2: _inner("ObjectType")},
+    spec_hooks=SG_HOOKS)
